@@ -33,7 +33,8 @@ class RouteSuite(Suite):
                 sfx.append(s)
             kind = rng.random()
             if kind < 0.3:
-                routes.append((sfx, "forge-nxdomain", None))
+                # a forge route may list servers (they are not used): it stays a forge route
+                routes.append((sfx, "forge-nxdomain", ("127.0.0.%d" % (2 + i)) if rng.random() < 0.35 else None))
             elif kind < 0.93:
                 routes.append((sfx, rng.choice(["forward", None]), "127.0.0.%d" % (2 + i)))
             else:
@@ -73,8 +74,9 @@ class RouteSuite(Suite):
                 names.append("".join(c.upper() if rng.random() < 0.5 else c.lower() for c in q))   # recased
             for t in tables:
                 cfg = self.yaml(t).encode().hex()
+                kinds = "".join("N" if typ == "forge-nxdomain" else "F" for _, typ, _ in t)
                 for q in names:
-                    out.append("route cfg=%s q=%s rd=%s" % (cfg, lab(q), rng.choice("1110")))
+                    out.append("route cfg=%s kinds=%s q=%s rd=%s" % (cfg, kinds, lab(q), rng.choice("1110")))
         return out[:n]
 
     def nontrivial(self, inp, obs):
